@@ -10,6 +10,7 @@ import sys
 import time
 import traceback
 
+os.environ.setdefault('TQDM_DISABLE', '1')
 VERIF = os.path.dirname(os.path.dirname(os.path.abspath(__file__)))
 sys.path.insert(0, VERIF)
 
